@@ -354,7 +354,7 @@ def coq_eval_bools(imports, exprs, builddir, tag, shard_bytes=120_000, shard_cas
         with open(p, "w") as f:
             f.write("From TW Require Import Lib.Corr %s.\nOpen Scope Qc_scope.\n%s\n" % (" ".join(imports), preamble))
             f.write("Definition cases : list bool := [\n")
-            f.write(";\n".join(e for _, e in sh))
+            f.write(";\n".join("(%s)" % e for _, e in sh))
             f.write("\n].\nEval vm_compute in (failing cases).\n")
         paths.append(p)
     failing, errs = [], []
